@@ -43,6 +43,7 @@ type c04Payload struct {
 	Src string `json:"src"`
 	Cfg c04Cfg `json:"cfg"`
 	Ext int    `json:"ext,omitempty"`
+	Dir bool   `json:"direct,omitempty"`
 }
 
 // c04Ext selects the language the run in progress is about: 0 = the built-in subset; L > 0 = the subset
@@ -72,6 +73,31 @@ func c04Extend(pb *parser.Builder) {
 	pb.RegisterInfixOperator(types["OP"], c04Ext, mkInfix)
 	pb.RegisterPrefixOperator(types["PRE"], mkPrefix)
 	pb.RegisterPostfixOperator(types["BANG"], mkPostfix)
+}
+
+// c04StmtDirect: the innermost statement interceptor does not call next() but dispatches on the current token
+// to the public Parse...Statement method itself (what a plugin does that wants to handle one statement kind
+// and delegates the rest); tokens, tree, errors, output and the interceptor log must be what next() gives.
+var c04StmtDirect bool
+
+func c04Dispatch(p *parser.Parser) ast.Statement {
+	switch p.CurrentToken.Type {
+	case token.LET:
+		return p.ParseLetStatement()
+	case token.FUNCTION:
+		return p.ParseFunctionStatement()
+	case token.RETURN:
+		return p.ParseReturnStatement()
+	case token.IF:
+		return p.ParseIfStatement()
+	case token.WHILE:
+		return p.ParseWhileStatement()
+	case token.FOR:
+		return p.ParseForStatement()
+	case token.LBRACE:
+		return p.ParseBlockStatement()
+	}
+	return p.ParseExpressionStatement()
 }
 
 // c04BasePB is the interceptor-free builder of the language of the run in progress.
@@ -136,7 +162,12 @@ func c04Build(cfg c04Cfg, m Mode, lg *c04Log) *parser.Builder {
 		install(func(pb *parser.Builder) {
 			pb.UseStatementInterceptor(func(p *parser.Parser, next func() ast.Statement) ast.Statement {
 				lg.stmt = append(lg.stmt, c04Step{who: i, enter: true, pos: p.CurrentToken.Start, lit: p.CurrentToken.Literal})
-				s := next()
+				var s ast.Statement
+				if c04StmtDirect && i == cfg.NS-1 {
+					s = c04Dispatch(p)
+				} else {
+					s = next()
+				}
 				lg.stmt = append(lg.stmt, c04Step{who: i, node: s})
 				return s
 			})
@@ -698,10 +729,13 @@ func c04RunInput(c *core.Ctx, src string, cfgs []c04Cfg, modes []Mode, size int)
 			c.Inc("config_runs")
 			k, d := c04Check(src, cfg, m, &base, &steps)
 			if k != "" && c.ShrinkOK(k) {
-				pl, _ := json.Marshal(c04Payload{Src: src, Cfg: cfg, Ext: c04Ext})
+				pl, _ := json.Marshal(c04Payload{Src: src, Cfg: cfg, Ext: c04Ext, Dir: c04StmtDirect})
 				ext := ""
 				if c04Ext > 0 {
 					ext = fmt.Sprintf(",OP@%d", c04Ext)
+				}
+				if c04StmtDirect {
+					ext += ",direct-dispatch"
 				}
 				c.Violate(core.Violation{Kind: k, Config: cfg.String() + ext + "," + m.String(), Case: fmt.Sprintf("%q", src), Detail: d, Payload: pl, Size: size,
 					Sig: k + "|" + cfg.String() + ext + "|" + fmt.Sprintf("%q", src)})
@@ -792,8 +826,60 @@ func c04Bytes(c *core.Ctx) {
 	}
 }
 
+// c04Direct: the direct-dispatch statement interceptor on all token sequences <= 3 (4 thorough), the statement
+// families and the nesting chains.
+func c04Direct(c *core.Ctx) {
+	c04StmtDirect = true
+	defer func() { c04StmtDirect = false }()
+	cfgs := []c04Cfg{{0, 1, "", false}, {1, 2, "P", false}, {0, 3, "R", true}}
+	n := 3
+	if c.Thorough() {
+		n = 4
+	}
+	for L := 1; L <= n; L++ {
+		gen.EachSeq(len(gen.T), L, func(idx []int) bool {
+			if !c.Next() {
+				return true
+			}
+			if c.Tick() {
+				return false
+			}
+			c.Inc("direct_dispatch_inputs")
+			cf := cfgs
+			if L == 4 {
+				cf = cfgs[:1]
+			}
+			c04RunInput(c, gen.Join(gen.T, idx, " "), cf, []Mode{{}}, L)
+			if L >= 2 && L <= 3 {
+				c04RunInput(c, gen.Join(gen.T, idx, "\n"), cf[:1], []Mode{{}, {Tolerant: true, Smart: true}}, L)
+			}
+			return true
+		})
+	}
+	level := 1
+	if c.Thorough() {
+		level = 2
+	}
+	gen.Programs(level, func(prog []*gen.Node, name string) {
+		if !c.Next() || c.Tick() {
+			return
+		}
+		c.Inc("direct_dispatch_inputs")
+		toks := gen.UnparseProgram(prog, false)
+		c04RunInput(c, gen.RenderDefault(toks), cfgs, []Mode{{}}, len(toks))
+	})
+	gen.NestChains(gen.Nesters(true), 2, func(prog []*gen.Node, name string) {
+		if !c.Next() || c.Tick() {
+			return
+		}
+		c.Inc("direct_dispatch_inputs")
+		c04RunInput(c, gen.RenderDefault(gen.UnparseProgram(prog, false)), cfgs[:2], []Mode{{}}, 30)
+	})
+}
+
 func c04Run(c *core.Ctx) {
 	defer func() { c.Count("interceptor_log_events", c04Events) }()
+	c04Direct(c)
 	c04Bytes(c)
 	c04Extended(c)
 	full := c04Cfgs(1)
@@ -906,8 +992,8 @@ func c04Replay(pl json.RawMessage) (string, []core.Violation) {
 	json.Unmarshal(pl, &p)
 	out := fmt.Sprintf("source %q configuration %s registered-operator level %d", p.Src, p.Cfg, p.Ext)
 	var vs []core.Violation
-	c04Ext = p.Ext
-	defer func() { c04Ext = 0 }()
+	c04Ext, c04StmtDirect = p.Ext, p.Dir
+	defer func() { c04Ext, c04StmtDirect = 0, false }()
 	for _, m := range Modes {
 		base := c04Observe(c04BasePB(m), p.Src)
 		if base.panic != "" {
@@ -927,7 +1013,7 @@ func c04Replay(pl json.RawMessage) (string, []core.Violation) {
 func init() {
 	core.Register(&core.PropSpec{
 		ID: "C04", Level: "model_checking",
-		Rule:     "configuration x input product with an interceptor-log model (also on all byte strings <= 3 (4 thorough) over the 26-byte lexer alphabet, alone and after a well-formed prefix, under token interceptors; run on the built-in subset and, extended family, on the subset plus an infix operator registered at each level 1..12 with a prefix and a postfix operator, all token sequences <= 3 (4 thorough) over 10 lexemes in 4 frames, against the interceptor-free builder with the same registrations): configurations = token interceptor counts {1,2,8}, statement interceptor counts {1,2,3,8}, every sequence of pass-through/re-entrant expression interceptors of length <= 3 (4 thorough) plus 8-long ones, mixed sets, installed directly or through Install(plugin) (35 quick / 56 thorough; a reduced set of 4 re-entrance/order configurations on the largest universes); inputs = ALL token sequences <= 3 (4 thorough), valid or malformed, in space and LF layouts, every expression chain of depth <= 3 (as statement and as argument), statement families and nesting chains. Oracle per (input, configuration): tokens (lexer driven directly), tree dump with positions, Errors(), compact and pretty output identical to the interceptor-free run; each token interceptor entered exactly once per token request with Line/Column/CurrentChar on the first byte of the lexeme that request returns; statement/expression interceptor logs are complete runs 0..n-1 in installation order with one current token per run, properly nested; the step list of interceptor 0 is the same in every configuration; the entry token of a step is the leftmost token of the construct it returns; on error-free parses every statement of the tree and every operand outside the left spine was returned by exactly one step. states = distinct (input, mode) pairs, transitions = interceptor log events (token requests, statement and expression step entries/exits) checked against the log model",
+		Rule:     "configuration x input product with an interceptor-log model (also with a statement interceptor that dispatches to the public Parse...Statement methods itself instead of calling next(), on all token sequences <= 3 (4), the statement families and nesting chains; also on all byte strings <= 3 (4 thorough) over the 26-byte lexer alphabet, alone and after a well-formed prefix, under token interceptors; run on the built-in subset and, extended family, on the subset plus an infix operator registered at each level 1..12 with a prefix and a postfix operator, all token sequences <= 3 (4 thorough) over 10 lexemes in 4 frames, against the interceptor-free builder with the same registrations): configurations = token interceptor counts {1,2,8}, statement interceptor counts {1,2,3,8}, every sequence of pass-through/re-entrant expression interceptors of length <= 3 (4 thorough) plus 8-long ones, mixed sets, installed directly or through Install(plugin) (35 quick / 56 thorough; a reduced set of 4 re-entrance/order configurations on the largest universes); inputs = ALL token sequences <= 3 (4 thorough), valid or malformed, in space and LF layouts, every expression chain of depth <= 3 (as statement and as argument), statement families and nesting chains. Oracle per (input, configuration): tokens (lexer driven directly), tree dump with positions, Errors(), compact and pretty output identical to the interceptor-free run; each token interceptor entered exactly once per token request with Line/Column/CurrentChar on the first byte of the lexeme that request returns; statement/expression interceptor logs are complete runs 0..n-1 in installation order with one current token per run, properly nested; the step list of interceptor 0 is the same in every configuration; the entry token of a step is the leftmost token of the construct it returns; on error-free parses every statement of the tree and every operand outside the left spine was returned by exactly one step. states = distinct (input, mode) pairs, transitions = interceptor log events (token requests, statement and expression step entries/exits) checked against the log model",
 		Assume:   []string{"a re-entrant interceptor ends the chain (it does not call next), so interceptors installed after it are not entered", "whether the property name after '.' is a parse step of its own is not constrained"},
 		QuickSec: 400, ThorSec: 1800, Run: c04Run, Replay: c04Replay,
 		Evals: "config_runs", Nontriv: "valid_inputs", States: "inputs", Trans: "interceptor_log_events",
